@@ -607,9 +607,22 @@ func abandonedLookupCanDeliver(c *kit.Ctx) {
 		return
 	}
 	n := 0
-	for _, f := range kit.WithAnon(fn) {
-		if f == fn {
-			continue
+	// the goroutines zkLookup starts: a function literal, or a named function / method given the channel as an argument
+	kit.Instrs(fn, func(gi ssa.Instruction) {
+		g, ok := gi.(*ssa.Go)
+		if !ok {
+			return
+		}
+		var f *ssa.Function
+		var mc *ssa.MakeClosure
+		if m, isLit := g.Call.Value.(*ssa.MakeClosure); isLit {
+			mc = m
+			f, _ = m.Fn.(*ssa.Function)
+		} else {
+			f = g.Call.StaticCallee()
+		}
+		if f == nil || len(f.Blocks) == 0 {
+			return
 		}
 		kit.Instrs(f, func(in ssa.Instruction) {
 			s, ok := in.(*ssa.Send)
@@ -618,26 +631,26 @@ func abandonedLookupCanDeliver(c *kit.Ctx) {
 			}
 			n++
 			good := false
-			var ch ssa.Value = s.Chan
-			if fv, ok := kit.Strip(ch).(*ssa.UnOp); ok {
-				ch = fv.X
+			var ch ssa.Value = kit.Strip(s.Chan)
+			if ld, ok := ch.(*ssa.UnOp); ok {
+				ch = ld.X
 			}
-			if fv, ok := kit.Strip(ch).(*ssa.FreeVar); ok {
-				// the binding in the parent
-				kit.Instrs(fn, func(x ssa.Instruction) {
-					mc, ok := x.(*ssa.MakeClosure)
-					if !ok || mc.Fn != ssa.Value(f) {
-						return
+			if fv, ok := kit.Strip(ch).(*ssa.FreeVar); ok && mc != nil {
+				for i, b := range mc.Bindings {
+					if f.FreeVars[i] == fv {
+						ch = b
 					}
-					for i, b := range mc.Bindings {
-						if f.FreeVars[i] == fv {
-							ch = b
-						}
+				}
+			}
+			if pa, ok := kit.Strip(ch).(*ssa.Parameter); ok {
+				for i, q := range f.Params {
+					if q == pa && i < len(g.Call.Args) {
+						ch = g.Call.Args[i]
 					}
-				})
+				}
 			}
 			var mk *ssa.MakeChan
-			switch x := kit.Root(ch).(type) {
+			switch x := kit.Root(kit.Strip(ch)).(type) {
 			case *ssa.MakeChan:
 				mk = x
 			case *ssa.Alloc:
@@ -656,7 +669,7 @@ func abandonedLookupCanDeliver(c *kit.Ctx) {
 			}
 			c.Check(good, f, "abandoned-lookup-can-deliver", s.Pos(), "the result channel of the ZooKeeper lookup is buffered", "the goroutine of a ZooKeeper lookup sends its result on an unbuffered channel: when the lookup was abandoned (timeout, cancelled context) and ZooKeeper answers later, the goroutine blocks in the send for ever - it is still there after Close")
 		})
-	}
+	})
 	if n == 0 {
 		c.Unk(fn, "abandoned-lookup-can-deliver", fn.Pos(), "zkLookup no longer hands its result over a channel from a goroutine")
 	}
@@ -908,6 +921,18 @@ func multiBuildsItsRequestInFreshMemory(c *kit.Ctx) {
 		org := ptrOrigins(mtp, ia.X, 0, map[ssa.Value]bool{})
 		_, kept := org["recv-field"]
 		_, glob := org["global"]
+		if cv, ok := org["call"]; ok {
+			// taken from a sync.Pool: shared with whoever gets it next, while the request built here is still
+			// to be marshalled by send
+			if cc, ok := kit.Strip(cv).(*ssa.Call); ok && kit.CalleeName(cc) == "(*sync.Pool).Get" {
+				glob = true
+			}
+			if ex, ok := cv.(*ssa.Extract); ok {
+				if cc, ok := ex.Tuple.(*ssa.Call); ok && kit.CalleeName(cc) == "(*sync.Pool).Get" {
+					glob = true
+				}
+			}
+		}
 		c.Check(!kept && !glob, mtp, "multi-request-in-fresh-memory", ia.Pos(), "the actions of the request are allocated by this toProto", "the actions of a multi request are built in memory that the (pooled) multi keeps from its previous use: an action that was a mutation last time and is a get now still carries the old mutation")
 	})
 	if n == 0 {
